@@ -57,7 +57,7 @@ func envelopeGen(r *rand.Rand, n int, tier string, emit func(Case)) {
 func envelopeOnPanic(c Case) Event {
 	gd := Event{"t": "", "pts": [][]int{}}
 	return Event{"kind": c.str("kind"), "a": []int{}, "b": []int{}, "c": []int{}, "ra": []int{}, "rb": []int{}, "join": []int{}, "join3": []int{},
-		"expandxy": []int{}, "contains": false, "intersects": false, "intersectsrev": false, "covers": false, "coversrev": false,
+		"expandxy": []int{}, "txy": []int{}, "contains": false, "intersects": false, "intersectsrev": false, "covers": false, "coversrev": false,
 		"distok": false, "dist2": 0, "kind2": "", "width": 0, "height": 0, "area": 0, "center2": []int{}, "centerempty": false,
 		"minmax": []int{}, "boxok": false, "box": []int{}, "asgeom": gd, "diag": gd,
 		"pts": [][]int{}, "env": []int{}, "isempty": false, "variants": [][]int{}, "members": [][]int{}, "unionok": false, "unionenv": []int{}, "otherenv": []int{}}
@@ -80,6 +80,12 @@ func envelopeExec(c Case) Event {
 		xi := func(p geom.XY) []int { return []int{li(p.X), li(p.Y)} }
 		x := Event{"kind": "xy", "u": ui, "v": vi, "k": k, "panic": "",
 			"sub": xi(u.Sub(v)), "add": xi(u.Add(v)), "scale": xi(u.Scale(float64(k))), "cross": li(u.Cross(v)), "dot": li(u.Dot(v)),
+			"ival": func() []int {
+				// Interval: NewInterval orders its bounds; the zero Interval is empty
+				lo, hi, ok := geom.NewInterval(float64(ui[0]), float64(vi[0])).MinMax()
+				_, _, zok := geom.Interval{}.MinMax()
+				return []int{li(lo), li(hi), boolInt(ok), boolInt(zok)}
+			}(),
 			"mid2": xi(u.Midpoint(v).Scale(2)), "less": u.Less(v), "lessrev": v.Less(u), "len32": -1, "unit": []int{0, 0}, "unitfin": false}
 		if ln := u.Length(); finite(ln) {
 			x["len32"] = int(math.Floor(ln * 32))
@@ -100,6 +106,8 @@ func envelopeExec(c Case) Event {
 		if bmn, bmx, ok := b.MinMaxXYs(); ok {
 			p := geom.XY{X: bmn.X, Y: bmx.Y}
 			ev["expandxy"] = envInts(a.ExpandToIncludeXY(p))
+			// TransformXY with a quarter turn, a stretch and a shift (orientation of both axes changes)
+			ev["txy"] = envInts(a.TransformXY(func(q geom.XY) geom.XY { return geom.XY{X: 7 - q.Y, Y: 2*q.X + 1} }))
 			ev["contains"] = a.Contains(p)
 		}
 		ev["intersects"], ev["intersectsrev"] = a.Intersects(b), b.Intersects(a)
